@@ -80,7 +80,27 @@ def _script(scen):
             "poll": [(1.5, "X"), (1.6, "Y")]}[scen]
 
 
+SLIP = 0.2        # tolerated lateness of a scripted operation, in units of D
+
+
+def _slipped(res, scen):
+    """The harness could not keep the scripted schedule (loaded machine): the run is not the scenario it names."""
+    sent = [t for k, t in res["log"] if k == "sent"]
+    return any(t - (res["t0"] + off * D) > SLIP * D for t, (off, _) in zip(sent, _script(scen)))
+
+
 def run_case(case):
+    # a run whose scripted operations were issued late is repeated (up to 4 tries); a run that stays late is reported
+    # as not exercised (see nontrivial) rather than judged against a schedule it did not follow
+    res = None
+    for _ in range(4):
+        res = _run_once(case)
+        if not _slipped(res, case["scenario"]):
+            break
+    return res
+
+
+def _run_once(case):
     from xstate_statemachine import Interpreter, SyncInterpreter
     from xstate_statemachine.events import AfterEvent
     scen = case["scenario"]
@@ -92,6 +112,7 @@ def run_case(case):
         t0 = time.monotonic()
         for off, op in _script(scen):
             time.sleep(max(0, t0 + off * D - time.monotonic()))
+            log.append(("sent", time.monotonic()))
             if op == "STOP":
                 it.stop()
             elif op == "STALE":
@@ -114,6 +135,7 @@ def run_case(case):
         t0 = time.monotonic()
         for off, op in _script(scen):
             await asyncio.sleep(max(0, t0 + off * D - time.monotonic()))
+            log.append(("sent", time.monotonic()))
             if op == "STOP":
                 await it.stop()
             elif op == "STALE":
@@ -142,6 +164,8 @@ def post_check(case, res):
 
     def bad(key, detail):
         out.append({"key": f"after/{e}:{key}", "detail": f"{scen}: {detail}"})
+    if _slipped(res, scen):
+        return out          # schedule not realised even after retries: nothing is concluded from this run
     if scen in ("stay", "named", "computed"):
         if len(fires) != 1:
             bad("fired-count", f"{len(fires)} (expected 1)")
@@ -181,4 +205,4 @@ def post_check(case, res):
 
 
 def nontrivial(case, res):
-    return True
+    return not _slipped(res, case["scenario"])
